@@ -115,12 +115,6 @@ def register(w):
                                           "status_reach(old(self.status), self.status)"])
 
     # ---- callees of the exit/entry routines -----------------------------------------------------------
-    @w.contract(BI + "_record_history", props=["C11"])
-    def _(c):
-        c.trusted = "assumed frame (writes self._history only); body under run-time contract in bounded.c11"
-        c.param("states_to_exit", ListSort(Node))
-        c.mod("self._history")
-
     @w.contract("xstate_statemachine.interpreter:Interpreter._cancel_state_tasks", props=["C08"])
     def _(c):
         c.trusted = "assumed frame for the asyncio engine: delegates to TaskManager.cancel_by_owner (asyncio task table outside the modelled state)"
